@@ -35,6 +35,11 @@ fn peel(e: &Expr) -> &Expr {
     }
 }
 
+thread_local! {
+    /// local `const` / `let` names of the function being translated -> their (already translated) value
+    static ALIASES: std::cell::RefCell<std::collections::HashMap<String, String>> = std::cell::RefCell::new(std::collections::HashMap::new());
+}
+
 fn kexpr(e: &Expr, param: &str) -> String {
     let e = peel(e);
     match e {
@@ -42,6 +47,8 @@ fn kexpr(e: &Expr, param: &str) -> String {
             let segs: Vec<String> = p.path.segments.iter().map(|s| s.ident.to_string()).collect();
             if segs.len() == 1 && segs[0] == param {
                 ".var".into()
+            } else if let Some(a) = (segs.len() == 1).then(|| ALIASES.with(|m| m.borrow().get(&segs[0]).cloned())).flatten() {
+                a
             } else if segs.len() == 2 && segs[1] == "MAX" {
                 format!("(.tmax {})", ty_of(&segs[0]))
             } else {
@@ -92,8 +99,9 @@ fn unknown_spec(name: &str, why: &str) -> KeyFacts {
     }
 }
 
-/// `Some(Self { key: NonZeroX::new_unchecked(EXPR) })` -> (backing, EXPR)
-fn some_self_key(e: &Expr) -> Option<(String, &Expr)> {
+/// `Some(Self { key: NonZeroX::new_unchecked(EXPR) })` -> (backing, EXPR); `lets` are the `let` bindings
+/// that precede it (for `let key = …; Some(Self { key })`)
+fn some_self_key<'a>(e: &'a Expr, lets: &[(String, &'a Expr)]) -> Option<(String, &'a Expr)> {
     let e = peel(e);
     let Expr::Call(call) = e else { return None };
     if toks(&call.func) != "Some" || call.args.len() != 1 {
@@ -107,7 +115,16 @@ fn some_self_key(e: &Expr) -> Option<(String, &Expr)> {
     if toks(&f.member) != "key" {
         return None;
     }
-    let Expr::Call(inner) = peel(&f.expr) else { return None };
+    let mut fexpr = peel(&f.expr);
+    if let Expr::Path(pp) = fexpr {
+        if pp.path.segments.len() == 1 {
+            let n = pp.path.segments[0].ident.to_string();
+            if let Some((_, init)) = lets.iter().find(|(k, _)| *k == n) {
+                fexpr = peel(init);
+            }
+        }
+    }
+    let Expr::Call(inner) = fexpr else { return None };
     let Expr::Path(fp) = &*inner.func else { return None };
     let segs: Vec<String> = fp.path.segments.iter().map(|s| s.ident.to_string()).collect();
     if segs.len() != 2 || segs[1] != "new_unchecked" || inner.args.len() != 1 {
@@ -139,26 +156,80 @@ fn key_impl(imp: &syn::ItemImpl) -> KeyFacts {
                     })
                     .unwrap_or_default();
                 tri = Some((|| {
-                    let Expr::If(i) = tail_expr(&f.block)? else { return None };
-                    let Expr::Binary(c) = peel(&i.cond) else { return None };
-                    let cmp = match c.op {
-                        syn::BinOp::Lt(_) => ".lt",
-                        syn::BinOp::Le(_) => ".le",
-                        _ => ".other",
-                    };
-                    let (backing, store) = some_self_key(tail_expr(&i.then_branch)?)?;
-                    let (_, els) = i.else_branch.as_ref()?;
-                    let Expr::Block(eb) = &**els else { return None };
-                    if toks(tail_expr(&eb.block)?) != "None" {
-                        return None;
+                    ALIASES.with(|m| m.borrow_mut().clear());
+                    // leading `const` / `let` bindings and at most one guard `if C { return None; }`
+                    let stmts = &f.block.stmts;
+                    let mut lets: Vec<(String, &Expr)> = Vec::new();
+                    let mut guard: Option<&Expr> = None;
+                    let mut tail: Option<&Expr> = None;
+                    for (idx, st) in stmts.iter().enumerate() {
+                        match st {
+                            Stmt::Item(Item::Const(c)) => {
+                                let v = kexpr(&c.expr, &param);
+                                ALIASES.with(|m| m.borrow_mut().insert(c.ident.to_string(), v));
+                            }
+                            Stmt::Local(l) => {
+                                let syn::Pat::Ident(pi) = &l.pat else { return None };
+                                let init = l.init.as_ref()?;
+                                lets.push((pi.ident.to_string(), &*init.expr));
+                                let v = kexpr(&init.expr, &param);
+                                if !v.contains(".unknown") {
+                                    ALIASES.with(|m| m.borrow_mut().insert(pi.ident.to_string(), v));
+                                }
+                            }
+                            Stmt::Expr(Expr::If(i), _) if idx + 1 != stmts.len() => {
+                                // guard: `if C { return None; }` without else
+                                if guard.is_some() || i.else_branch.is_some() {
+                                    return None;
+                                }
+                                let body: String = toks(&i.then_branch).chars().filter(|c| !c.is_whitespace()).collect();
+                                if body != "{returnNone;}" && body != "{returnNone}" {
+                                    return None;
+                                }
+                                guard = Some(&i.cond);
+                            }
+                            Stmt::Expr(e, None) if idx + 1 == stmts.len() => tail = Some(peel(e)),
+                            _ => return None,
+                        }
                     }
-                    Some((
-                        backing,
-                        cmp.to_string(),
-                        kexpr(&c.left, &param),
-                        kexpr(&c.right, &param),
-                        kexpr(store, &param),
-                    ))
+                    let tail = tail?;
+                    // (success condition as (cmp, lhs, rhs), the `Some(..)` expression)
+                    let norm = |c: &Expr, negate: bool| -> Option<(&'static str, String, String)> {
+                        let Expr::Binary(b) = peel(c) else { return None };
+                        let (l, r) = (kexpr(&b.left, &param), kexpr(&b.right, &param));
+                        // success means: (negate ? !C : C), expressed with < or <=
+                        Some(match (&b.op, negate) {
+                            (syn::BinOp::Lt(_), false) => (".lt", l, r),
+                            (syn::BinOp::Le(_), false) => (".le", l, r),
+                            (syn::BinOp::Gt(_), false) => (".lt", r, l),
+                            (syn::BinOp::Ge(_), false) => (".le", r, l),
+                            (syn::BinOp::Lt(_), true) => (".le", r, l),
+                            (syn::BinOp::Le(_), true) => (".lt", r, l),
+                            (syn::BinOp::Gt(_), true) => (".le", l, r),
+                            (syn::BinOp::Ge(_), true) => (".lt", l, r),
+                            _ => return None,
+                        })
+                    };
+                    let is_none = |e: &Expr| toks(peel(e)) == "None";
+                    let (cond, some_e): ((&'static str, String, String), &Expr) = match (guard, tail) {
+                        (Some(g), t) => (norm(g, true)?, t),
+                        (None, Expr::If(i)) => {
+                            let (_, els) = i.else_branch.as_ref()?;
+                            let Expr::Block(eb) = &**els else { return None };
+                            let then_e = tail_expr(&i.then_branch)?;
+                            let else_e = tail_expr(&eb.block)?;
+                            if is_none(else_e) {
+                                (norm(&i.cond, false)?, then_e)
+                            } else if is_none(then_e) {
+                                (norm(&i.cond, true)?, else_e)
+                            } else {
+                                return None;
+                            }
+                        }
+                        _ => return None,
+                    };
+                    let (backing, store) = some_self_key(some_e, &lets)?;
+                    Some((backing, cond.0.to_string(), cond.1, cond.2, kexpr(store, &param)))
                 })());
             }
         }
